@@ -272,7 +272,7 @@ func (e *oraEnv) project(ctx sdk.Context) any {
 		"ctx": ctxs, "bind": bind, "earned": earned, "nctx": e.svc.NCtx,
 		"bal":    e.svc.Balances(ctx, e.accounts()),
 		"params": chain.M{"timeout": e.maxTO, "taxNum": e.taxNum, "taxDen": e.taxDen},
-		"xbind": xbind, "qBad": qBad, "gvBad": gvBad, "fmtBad": fmtBad,
+		"xbind":  xbind, "qBad": qBad, "gvBad": gvBad, "fmtBad": fmtBad,
 	}
 }
 
